@@ -16,7 +16,14 @@ Two kinds of case share the budget (case['kind']):
         into, after the dump, fchmod, close, before/after replace, after the
         cleanup) and checks at each what another process would see (= a crash
         there). Then one fresh run per raisable point raises an OSError there
-        and the directory is checked again afterwards.
+        (case['errno']: ENOSPC, EDQUOT, EMFILE, ENFILE, EACCES, EROFS, EIO,
+        as the builtin subclass the interpreter would raise) and the
+        directory is checked again afterwards. What the failed run did is
+        part of the observation: if it raised, the service exits and
+        (case['recover']) the restarted agent's first synchronisation
+        (check_existing) runs on whatever the aborted one left behind and must
+        produce the mirror; if it returned normally it *is* a completed
+        synchronisation and the mirror clause is applied to it as it stands.
  agent  what else the agent writes into the cache directory: the real
         EventMgr.run(once=True) (presence watch, placement watch with the
         first synchronisation, ready notifications, heartbeat) and single
@@ -26,8 +33,10 @@ Two kinds of case share the budget (case['kind']):
         (open, mkstemp, chmod, rename, remove, mkdir, scandir ...), whoever
         performs it; the directory is observed at each (= after the previous
         operation, = a crash there) and, when case['faults'], one rerun per
-        mutating operation makes that operation fail. The same audit watch
-        also runs (observe only) during sync and fault cases.
+        mutating operation makes that operation fail; every synchronisation
+        step of such a rerun that returns normally is held to the mirror
+        clause. The same audit watch also runs (observe only) during sync and
+        fault cases.
 """
 
 import os
@@ -44,7 +53,11 @@ RULE = ('sync cases: a real EventMgr._synchronize on a temp root against the '
         'not placed), >=1 missing (placed, not cached) and >=1 existing '
         '(placed and cached) entry. fault cases: every point of every '
         'write_safe call of one synchronisation is observed (crash_points) '
-        'and one run per raisable point raises there (injected_faults); '
+        'and one run per raisable point raises there (injected_faults, '
+        'errno class drawn per case); a failed run that raises is followed by '
+        'the restarted agent\'s synchronisation (recovery_syncs), one that '
+        'returns normally is judged as a completed synchronisation '
+        '(fault_swallowed_mirror_checked); '
         'non-trivial = some injected failure happened after >=1 byte of the '
         'manifest had been written to the temp file. agent cases: real '
         'run(once=True) / _cache_notify / _synchronize steps with the cache '
@@ -65,6 +78,12 @@ ASSUMPTIONS = [
     'creation, dump output cut into pieces and optionally flushed, fchmod, '
     'close, replace, cleanup); power-loss reordering below the file system '
     'API is out of scope',
+    'a synchronisation has happened when _synchronize (or the run(once) / '
+    'sync step that contains it) returns normally, whatever was made to fail '
+    'inside it; when it raises, the service exits (utils.exit_on_unhandled), '
+    'the supervisor restarts it, and the restarted agent synchronises with '
+    'check_existing on the directory the aborted run left (same ZooKeeper '
+    'state, no second fault)',
     'under check_existing an entry whose placement node is newer than its '
     'file must be refreshed (the "outdated files" of the quantifier)',
     'set iteration order of _synchronize is that of PYTHONHASHSEED=0',
@@ -312,6 +331,7 @@ CUTS = st.lists(st.integers(1, 999), max_size=3, unique=True)
 OTHERS = st.lists(st.sampled_from(['extra', 'missing', 'existing']),
                   max_size=2)
 FAULT_DELTA = st.sampled_from([1000, 3600000])
+ERRNO = st.sampled_from(list(cachefs.ERRNOS) + ['ENOSPC', 'EACCES'])
 
 
 def _dotfiles(draw, names):
@@ -377,6 +397,8 @@ def _fault_case(draw):
         'dotfiles': _dotfiles(draw, names[:1]),
         'cuts': sorted(draw(CUTS)),
         'flush': draw(DIE4) != 0,
+        'errno': draw(ERRNO),
+        'recover': draw(BOOL),
     }
 
 
@@ -423,6 +445,7 @@ def _agent_case(draw):
         'dotfiles': _dotfiles(draw, names[:1]),
         'steps': steps,
         'faults': draw(BOOL),
+        'errno': draw(ERRNO),
     }
 
 
@@ -554,6 +577,8 @@ def _run_fault(case, stats):
     _count_case(case, stats)
     cuts = case.get('cuts', [])
     flush = bool(case.get('flush'))
+    errno_name = case.get('errno', 'ENOSPC')
+    stats.count('fault_errno:' + errno_name)
 
     world = cachefs.World(case)
     try:
@@ -573,7 +598,7 @@ def _run_fault(case, stats):
             if not raisable:
                 continue
             world.reset()
-            ctl = cachefs.Controller(world, index, cuts, flush)
+            ctl = cachefs.Controller(world, index, cuts, flush, errno_name)
             try:
                 cachefs.synchronize(world, ctl)
                 raised = False
@@ -608,13 +633,53 @@ def _run_fault(case, stats):
                       if name not in world.prior_dot]
             if litter:
                 stats.count('dot_litter_after_fault', len(litter))
+            if not raised:
+                # the failure did not stop the synchronisation: it returned
+                # normally, the agent carries on (.ready stays set, nothing
+                # retries), so it is a completed synchronisation
+                stats.count('fault_swallowed_mirror_checked')
+                cachefs.check_after_sync(
+                    world, cachefs.PrefixedStats(stats, 'swallowed:'),
+                    prefix='c12.fault.sync-completed',
+                    where='after the synchronisation that returned normally '
+                    'although %s was injected at point %d (%s),' % (
+                        errno_name, index, label))
+            elif case.get('recover'):
+                # service exit + restart: first synchronisation of the new
+                # agent on what the aborted one left behind
+                stats.count('recovery_syncs')
+                rec = cachefs.Controller(world, None, cuts, flush)
+                rwhere = ('the restart after the synchronisation aborted by '
+                          '%s at point %d (%s)' % (errno_name, index, label))
+                try:
+                    cachefs.synchronize(world, rec, check_existing=True)
+                except Violation:
+                    raise
+                except Exception as err:  # pylint: disable=broad-except
+                    raise Violation(
+                        'c12.recovery.raised.%s' % type(err).__name__,
+                        'the synchronisation of %s did not complete: %s: %s'
+                        % (rwhere, type(err).__name__,
+                           ' '.join(str(err).split())[:300]))
+                world.check_observable('the end of ' + rwhere)
+                cachefs.check_after_sync(
+                    world, cachefs.PrefixedStats(stats, 'recovery:'),
+                    prefix='c12.recovery',
+                    where='after the synchronisation of %s,' % rwhere,
+                    check_existing=True)
     finally:
         world.close()
     return after_bytes
 
 
 def _agent_steps(world, case, ctl, raisable, stats=None):
-    """Run the steps; returns (mutating fs operations, syncs performed)."""
+    """Run the steps; returns (mutating fs operations, syncs performed).
+
+    stats None: a rerun with one file system operation made to fail. A step
+    that raises ends the rerun (the service exits). A synchronisation step
+    that returns normally after the failure has synchronised, so the mirror
+    clause applies to it (all of them are checked on a rerun: the failure may
+    sit in any of them)."""
     mutations = syncs = 0
     for step in case['steps']:
         mutations += cachefs.agent_step(world, step, ctl, raisable)
@@ -625,6 +690,13 @@ def _agent_steps(world, case, ctl, raisable, stats=None):
             syncs += 1
             if stats is not None and syncs == 1:
                 cachefs.check_after_sync(world, stats)
+            elif stats is None and ctl.fired is not None:
+                cachefs.check_after_sync(
+                    world, cachefs.PrefixedStats(None, ''),
+                    prefix='c12.fault.sync-completed',
+                    where='after step %r, which returned normally although '
+                    '%s was injected at fs operation %d (%s),' % (
+                        step, ctl.errno_name, ctl.fired[0], ctl.fired[1]))
     return mutations, syncs
 
 
@@ -633,6 +705,7 @@ def _run_agent(case, stats):
     _count_case(case, stats)
     for step in case['steps']:
         stats.count('agent_step:' + step)
+    errno_name = case.get('errno', 'ENOSPC')
     world = cachefs.World(case)
     try:
         # reference run: the directory after every file system operation.
@@ -663,9 +736,11 @@ def _run_agent(case, stats):
                 if not raisable:
                     continue
                 world.reset()
-                ctl = cachefs.Controller(world, index)
+                ctl = cachefs.Controller(world, index,
+                                         errno_name=errno_name)
                 try:
                     _agent_steps(world, case, ctl, True)
+                    stats.count('agent_fault_swallowed')
                 except Violation:
                     raise
                 except Exception:  # pylint: disable=broad-except
@@ -761,6 +836,7 @@ def fixed_cases():
         ],
         'dotfiles': [{'name': '.ready', 'text': ''}],
         'cuts': [1, 500, 999], 'flush': True,
+        'errno': 'EDQUOT', 'recover': True,
     }
     create_new = {
         'kind': 'fault', 'check_existing': False,
@@ -770,6 +846,7 @@ def fixed_cases():
              'pdata': _pd(None, 1578279999.25), 'file': None},
         ],
         'dotfiles': [], 'cuts': [400], 'flush': False,
+        'errno': 'EMFILE', 'recover': True,
     }
     wide = {
         'kind': 'sync', 'check_existing': False,
